@@ -368,7 +368,7 @@ def run_property(prop, tier, seed, replay=None, max_seconds=None):
             lines = []
             spans = []
             for case, obs in batch:
-                ops = prop.model_ops(case)
+                ops = prop.model_ops2(case, obs) if hasattr(prop, 'model_ops2') else prop.model_ops(case)
                 spans.append((len(lines), len(ops)))
                 lines += ops
             try:
